@@ -562,6 +562,72 @@ def overlap_jobs():
     return [{'modules': mods, 'fresh': False, 'jobs': [j1, j2], 'k': 1}, {'modules': mods, 'jobs': [j1[:2], j2[:3]], 'k': 1}]
 
 
+def respec_case(ctx):
+    """add_meta_spec() is public: an application registers its own meta event, uses it, and later registers a newer
+    version of the same event (one more attribute, a tighter check).  Copies made afterwards follow the spec that is
+    registered *now* - judged against the values themselves, not against a fresh construction (which would go the
+    same way).  (Registers a spec: runs last in its shard.)"""
+    from mido.midifiles.meta import MetaSpec, add_meta_spec
+
+    class MetaSpec_vmon_cue(MetaSpec):
+        type_byte = 0x6E
+        attributes = ['a']
+        defaults = [0]
+
+        def decode(self, message, data):
+            message.a = data[0]
+
+        def encode(self, message):
+            return [message.a]
+
+        def check(self, name, value):
+            if name == 'a' and not 0 <= value <= 100:
+                raise ValueError('a out of range')
+
+    class V2(MetaSpec_vmon_cue):
+        type = 'vmon_cue'
+        attributes = ['a', 'b']
+        defaults = [0, 5]
+
+        def decode(self, message, data):
+            message.a, message.b = data[0], data[1]
+
+        def encode(self, message):
+            return [message.a, message.b]
+
+        def check(self, name, value):
+            if not 0 <= value <= 10:
+                raise ValueError(f'{name} out of range')
+    case = {'kind': 'respec'}
+    try:
+        add_meta_spec(MetaSpec_vmon_cue)
+        m1 = MetaMessage('vmon_cue', a=50, time=3)
+        c1 = m1.copy(a=60)
+        f1 = freeze_message(m1).copy(a=70)
+        ok1 = (vars(c1) == {'type': 'vmon_cue', 'a': 60, 'time': 3} and f1.a == 70 and thaw_message(freeze_message(m1)) == m1)
+        add_meta_spec(V2)
+        m2 = MetaMessage('vmon_cue', a=1, time=4)
+        c2 = m2.copy(b=7)
+        f2 = freeze_message(m2).copy(b=8, time=9)
+        ok2 = (vars(m2) == {'type': 'vmon_cue', 'a': 1, 'b': 5, 'time': 4} and vars(c2) == {'type': 'vmon_cue', 'a': 1, 'b': 7, 'time': 4}
+               and (f2.a, f2.b, f2.time) == (1, 8, 9) and isinstance(f2, FrozenMetaMessage) and c2.bytes() == [0xFF, 0x6E, 2, 1, 7])
+        refused = []
+        for ov in ({'a': 60}, {'b': 11}, {'c': 1}):
+            for src in (m2, freeze_message(m2)):
+                try:
+                    src.copy(**ov)
+                    refused.append(False)
+                except (ValueError, TypeError):
+                    refused.append(True)
+        ctx.check('copy(**ov) == fresh construction', ok1 and ok2, 'respec:copy-follows-old-spec', case,
+                  lambda: {'v1': ok1, 'copy under v2': repr(vars(c2)), 'frozen copy under v2': repr(vars(f2))})
+        ctx.check('invalid override leaves original unchanged', all(refused) and vars(m2) == {'type': 'vmon_cue', 'a': 1, 'b': 5, 'time': 4},
+                  'respec:invalid-override-accepted', case, refused)
+    except Exception as exc:
+        ctx.fail('copy(**ov) == fresh construction', f'respec:{type(exc).__name__}', case, f'{type(exc).__name__}: {exc}')
+    return 1
+
+
 ALIVE = []          # frozen messages of earlier cases stay alive for the whole shard, as they do in an application
 
 
@@ -645,6 +711,8 @@ def run(ctx):
         n += user_subclass_cases(ctx)
     if ctx.shard == 1 % ctx.nshards:
         n += hash_twin_cases(ctx)
+    if ctx.shard == 3 % ctx.nshards:
+        n += respec_case(ctx)
     if os.environ.get('VERIF_ENVMODE', 'default') in ('default', 'c-locale'):
         from .. import coldstart
         n += coldstart.phase(ctx, overlap_jobs(), 'copy(**ov) == fresh construction', kind='cold', offset=2)
@@ -665,6 +733,8 @@ def replay(ctx, case):
     elif case['kind'] == 'cold':
         from .. import coldstart
         coldstart.replay(ctx, case, 'copy(**ov) == fresh construction')
+    elif case['kind'] == 'respec':
+        respec_case(ctx)
     elif case['kind'] == 'hash-twins':
         hash_twin_cases(ctx)
     elif case['kind'] == 'user-subclass':
